@@ -75,7 +75,7 @@ CLAIMED = {
         "critical; scatter-cache cells are accessed atomically; the append-only detection-point table is reserved before use - after every "
         "reset and after every change of the size the appends stop at; per-thread "
         "accumulators (containers indexed by omp_get_thread_num()) are reduced and reset completely - every loop over them outside a "
-        "region visits all slots and is never left early. NOT decided: numerical equality up to reassociation, memory-model adequacy of "
+        "region visits all slots and is never left early; a member per-thread container is not reset slot-by-own-thread inside a region, a complete zero-fill loop exists wherever a complete reduction loop exists, and the call holding it sizes the container for omp_get_max_threads() (F51, fixed). NOT decided: numerical equality up to reassociation, memory-model adequacy of "
         "omp atomic, thread-safety inside callees beyond the reviewed table.",
         technique="static analysis: OpenMP-aware AST/CFG rules (typestate of double-checked locking, lock pairing by must-pass-through, "
         "shared-write discipline with data-sharing classification)",
@@ -125,7 +125,7 @@ CLAIMED = {
         "function replacing an input of a cache drops that cache (line-integral caches, and every lazily computed member - found from "
         "the code as `const function recomputes M when M fails its sentinel test` - with the members its defining expression reads; "
         "defect F17, fixed), process_data requires set-up; the set-up call chain leaves every scalar setting as the user gave it "
-        "(defect F21, fixed). NOT decided: non-negativity, numerical "
+        "(defect F21, fixed); data the object derives from its settings (scatter points; the scatter-point image made by set_up) follow every setter of one of their inputs by the time set_up() has run (F40, F41, fixed; F42: the cache switches reset the set-up flag). NOT decided: non-negativity, numerical "
         "equality with a freshly configured simulation.",
         technique="static analysis: closed-form algebra (sympy) on extracted expression DAGs, sibling agreement, setter/cache invalidation "
         "must-pass-through",
@@ -170,8 +170,10 @@ CLAIMED = {
         "the registration; the Interfile per-data-set vectors are sized with get_num_datasets(), the bound of the loops that index them; "
         "header parse and post_processing() results are tested on the reader chain; keywords are standardised before being stored or "
         "compared, alias resolution follows standardisation and precedes the look-up; list-valued header vectors that a helper indexes in lock step are each size-tested "
-        "against one expected count (exit on mismatch) on every path to that call. NOT decided: absence of out-of-bounds access under "
-        "arbitrary bytes for the whole parser, unbounded allocation, value formatting round trips.",
+        "against one expected count (exit on mismatch) on every path to that call; a key registered with the address of a vector element survives every resize of that vector by a keyword processor (F44, F50, fixed); "
+        "no non-literal text is copied into a fixed-size buffer in the Interfile readers without a length test (F47, fixed); counts from the header are range-checked before they size vectors (F45, fixed); "
+        "the index of a vectorised key is converted strictly (F43, fixed). NOT decided: absence of out-of-bounds access under "
+        "arbitrary bytes for the whole parser, value formatting round trips.",
         technique="static analysis: switch exhaustiveness against the registration API, must-facts bounds, resolved-callee ordering "
         "(must-pass-through), result-use discipline",
     ),
@@ -253,7 +255,7 @@ CLAIMED = {
         "tangential position is negated and the ring difference is taken with exchanged end points under the same flag; by closed-form "
         "algebra arc-corrected get_s = tangential position * bin_size (uniform sampling, odd), non-arc-corrected get_s is odd, get_phi is "
         "affine in the view with slope azimuthal_angle_sampling, get_m is affine in the axial position with the segment's axial sampling, "
-        "get_tantheta is odd in the ring difference and even in s. NOT decided: that get_bin(get_LOR(bin)) returns the same or a "
+        "get_tantheta is odd in the ring difference and even in s and equals the axial distance over the TRANSAXIAL distance of the end points in both geometry families (F39, fixed); the azimuthal offset of view-mashed data is pi/(N/2)*(M-1)/2 with a real-valued (M-1)/2. NOT decided: that get_bin(get_LOR(bin)) returns the same or a "
         "neighbouring bin, agreement of the coordinates with the detectors' physical positions, TOF bin boundaries, arc correction "
         "preserving integrals (floating-point geometry over runtime scanner parameters).",
         technique="static analysis: typestate (range test after last modification) over clang CFG with short-circuit-aware ordering, "
@@ -309,11 +311,13 @@ CLAIMED = {
         "path by threshold_upper_lower over the whole image with lower bound 0 and upper bound `upper_bound` (iterates end in [0, upper "
         "bound]); every division `_1 / _2` is by the image that passed threshold_min_to_small_positive_value in this call, or by the stored "
         "denominator in the branch excluding the first executed sub-iteration, the stored one being copied from the thresholded image; the "
-        "additive update is subgradient*num_subsets/D*relaxation with relaxation = alpha/(1+gamma*(n div N)), added to the image "
+        "additive update is subgradient*num_subsets/D*relaxation with relaxation = alpha/(1+gamma*((n-1) div N)) for the 1-based sub-iteration number n (defect F36, fixed - the clause had encoded the off-by-one), added to the image "
         "afterwards; the denominator is built as the property defines it: the stored part is a fresh empty image into which the "
         "approximate Hessian applied to an image of ones is accumulated and then negated once (every element, every path), and the "
-        "divisor is 2 * prior.parabolic_surrogate_curvature(current image) + stored part with a prior, the stored part without. NOT "
-        "decided: the values of the Hessian and curvature themselves, restart equality.",
+        "divisor is 2 * prior.parabolic_surrogate_curvature(current image) + stored part with a prior, the stored part without; every successful path of set_up() "
+        "renews the stored denominator (the previous run modified it in place); a prior that says its surrogate curvature does not depend on the image reads no image element when computing it (F37, fixed); "
+        "nothing that modifies the iterate is conditional on the sub-iteration the run started at (known finding F38: voxels the data do not determine are zeroed at every run start). NOT "
+        "decided: the values of the Hessian and curvature themselves, equality of resumed and uninterrupted images.",
         technique="static analysis: must-pass-through / dominance on clang CFG, must-facts at divisions, expression-shape matching "
         "of the update pipeline",
     ),
